@@ -213,8 +213,17 @@ def Hier.okFunType (H : Hier) : Bool :=
     && (H.sup H.typeC c == none || c == H.typeC || c == H.objectC)
     && cs.all (fun d => H.sup c d != some (.const H.functionC)))
 
+/-- a class used as a constant type argument of a base (`class Sub(Inv[A])`) has no generic superclass
+    itself (so joining two such arguments never needs a further join of arguments; `class str(Sequence[str])`
+    is outside the fragment) -/
+def Hier.okConst (H : Hier) : Bool :=
+  let cs := H.classes
+  cs.all (fun c => cs.all (fun d => match H.sup c d with
+    | some (.const a) => cs.all (fun e => H.sup a e == none || H.sup a e == some .na)
+    | _ => true))
+
 def Hier.ok (H : Hier) : Bool :=
-  H.okSpecial && H.okSup && H.okBases && H.okTupleLike && H.okFunType
+  H.okSpecial && H.okSup && H.okBases && H.okTupleLike && H.okFunType && H.okConst
 
 mutual
 /-- `builtins.function` (not denotable in source; the fallback of callables) does not occur -/
@@ -235,13 +244,14 @@ end
 
 mutual
 /-- well-formed terms: classes from the table used with the right arity; unions flattened
-    (`UnionType.__init__` flattens); `Type[...]` normalised (`TypeType.make_normalized`) -/
+    (`UnionType.__init__` flattens) and non-empty (`Union[()]` has no subtype at all in the code, not even
+    Never); `Type[...]` normalised (`TypeType.make_normalized`) -/
 def Ty.wf (H : Hier) : Ty → Bool
   | .never => true
   | .none => true
   | .inst c => H.classes.contains c && !H.generic c
   | .gen c a => H.classes.contains c && H.generic c && a.wf H
-  | .union is => wfL H is && is.all (fun i => !i.isUnion)
+  | .union is => wfL H is && is.all (fun i => !i.isUnion) && !is.isEmpty
   | .tuple is => wfL H is
   | .callable as r => wfL H as && r.wf H
   | .lit c _ => H.classes.contains c && !H.generic c
@@ -527,12 +537,8 @@ def joinSwap (s t : Ty) : Ty × Ty :=
   let (s, t) := if s.isNone && !t.isNone then (t, s) else (s, t)
   if s.isNever && !t.isNever then (t, s) else (s, t)
 
-/-- one unfolding of `join_types(s, t)` -/
-def joinStep (H : Hier) (J M : Ty → Ty → Ty) (s0 t0 : Ty) : Ty :=
-  let st0 := joinTruthiness H s0 t0
-  let st := joinSwap st0.1 st0.2
-  let s := st.1
-  let t := st.2
+/-- `t.accept(TypeJoinVisitor(s))` -/
+def joinVisit (H : Hier) (J M : Ty → Ty → Ty) (s t : Ty) : Ty :=
   match t with
   | .union _ => if isProperSubtype H s t then t else simplifyUnion H [s, t]
   | .none => if s.isNone || s.isNever then t else simplifyUnion H [s, t]
@@ -543,6 +549,12 @@ def joinStep (H : Hier) (J M : Ty → Ty → Ty) (s0 t0 : Ty) : Ty :=
   | .callable bs ret => joinVisitCallable H J M s t bs ret
   | .lit c _ => joinVisitLiteral J s t c
   | .typeType y => joinVisitTypeType H J s y
+
+/-- one unfolding of `join_types(s, t)`: truthiness normalisation, operand swaps, visitor -/
+def joinStep (H : Hier) (J M : Ty → Ty → Ty) (s0 t0 : Ty) : Ty :=
+  let st0 := joinTruthiness H s0 t0
+  let st := joinSwap st0.1 st0.2
+  joinVisit H J M st.1 st.2
 
 /-! ## Meet -/
 
@@ -599,27 +611,29 @@ def meetVisitInstance (H : Hier) (M : Ty → Ty → Ty) (s t : Ty) : Ty :=
     | .lit c _ => if isSubtype H (.inst c) t then s else .never       -- visit_literal_type
     | _ => .never
 
-/-- one unfolding of `meet_types(s, t)` -/
+/-- `t.accept(TypeMeetVisitor(s))` -/
+def meetVisit (H : Hier) (J M : Ty → Ty → Ty) (s t : Ty) : Ty :=
+  match t with
+  | .union ts =>
+    match s with
+    | .union ss => simplifyUnion H (ts.flatMap (fun x => ss.map (fun y => M x y)))
+    | _ => simplifyUnion H (ts.map (fun x => M x s))
+  | .none => if s.isNone || s == .inst H.objectC then t else .never
+  | .never => t
+  | .inst _ => meetVisitInstance H M s t
+  | .gen _ _ => meetVisitInstance H M s t
+  | .tuple ts => meetVisitTuple H M s t ts
+  | .callable bs ret => meetVisitCallable H J M s t bs ret
+  | .lit c _ => if s.isInstance && isSubtype H (.inst c) s then t else .never
+  | .typeType y => meetVisitTypeType H M s t y
+
+/-- one unfolding of `meet_types(s, t)`: the two proper-subtype shortcuts, the union swap, the visitor -/
 def meetStep (H : Hier) (J M : Ty → Ty → Ty) (s0 t0 : Ty) : Ty :=
   if isProperSubtype H s0 t0 then s0
   else if isProperSubtype H t0 s0 then t0
   else
     let st := if s0.isUnion && !t0.isUnion then (t0, s0) else (s0, t0)
-    let s := st.1
-    let t := st.2
-    match t with
-    | .union ts =>
-      match s with
-      | .union ss => simplifyUnion H (ts.flatMap (fun x => ss.map (fun y => M x y)))
-      | _ => simplifyUnion H (ts.map (fun x => M x s))
-    | .none => if s.isNone || s == .inst H.objectC then t else .never
-    | .never => t
-    | .inst _ => meetVisitInstance H M s t
-    | .gen _ _ => meetVisitInstance H M s t
-    | .tuple ts => meetVisitTuple H M s t ts
-    | .callable bs ret => meetVisitCallable H J M s t bs ret
-    | .lit c _ => if s.isInstance && isSubtype H (.inst c) s then t else .never
-    | .typeType y => meetVisitTypeType H M s t y
+    meetVisit H J M st.1 st.2
 
 mutual
 def joinF (H : Hier) : Nat → Ty → Ty → Ty
